@@ -67,6 +67,8 @@ type PathResult struct {
 	Inconclusive []string       `json:"inconclusive,omitempty"`
 	Externals    []string       `json:"externals,omitempty"`
 	Witnesses    []Witness      `json:"witnesses,omitempty"`
+	QUnsat       int            `json:"q_unsat"`
+	QSat         int            `json:"q_sat"`
 }
 
 type Engine struct {
